@@ -84,7 +84,7 @@ CLAIMS = {
           "(R3) same hash algorithm: only Location.LEFTONLY keys of the sorted merge are transferred; different algorithms: constant propagation shows no_holes=True and no_holes_read_twice=True at every add call; "
           "(R4) the old/new key lists of the returned mapping grow in lockstep (paired append / extension from one zip(*cache.items()) whose contents are what is added), the cache is reset with every in-loop flush and flushed after the loop; (R5) direction: objects are read from the source container parameter, existence listing / writes / commit happen on self, and the fast path is chosen by comparing the two containers' hash types. "
           "Does NOT decide byte identity of transferred objects."),
-    note="Assumes add_objects_to_pack returns keys in input order (C01/C09 rules) and dict insertion order. Also hosts the rule module of C01 (the direct-to-pack write path must round-trip). Also hosts the rule module of C09 (the no_holes de-duplication import relies on).",
+    note="Assumes add_objects_to_pack returns keys in input order (C01/C09 rules) and dict insertion order. Also hosts the rule module of C01 (the direct-to-pack write path must round-trip). Also hosts the rule module of C17 (an I/O error swallowed while reading a source object silently drops it from the import). Also hosts the rule module of C09 (the no_holes de-duplication import relies on).",
     technique="linear typestate + constant propagation on ICFGs + def-use matching", ref="5/C14"),
  'C15': dict(
     text=("Decides structural clauses of backup_container: (R1) copy steps classified by the kind of their source path run in the order loose -> index dump -> copy of the dump -> packs -> rest on every path; "
